@@ -1,3 +1,4 @@
+import Gsp.Lemmas.Hex
 import Gsp.Model.Json
 /-! C14 — the credential struct view is lossless for merklization.
     The struct view keeps every member it knows; members are compared as JSON values, dates as instants
@@ -243,5 +244,82 @@ theorem proof_kind_dispatch :
   refine ⟨by decide, by decide, by decide, ?_⟩
   intro tp h1 h2 h3
   simp [kindOf, h1, h2, h3]
+
+/-! ### the spelling of the claim a proof carries (core.Claim.FromHex / Hex; validateHexCoreClaim, GetCoreClaim; model M4b) -/
+section ClaimHex
+open Gsp.Hex
+
+/-- **round trip**: the spelling the library writes for a claim (`Claim.Hex`) is read back (`Claim.FromHex`) as that claim -/
+theorem claim_hex_roundtrip (q : Nat) (slots : List Nat) (h8 : slots.length = 8) (hq : ∀ s ∈ slots, s < q)
+    (hq256 : q ≤ 2 ^ 256) : claimFromHex q (claimToHex slots) = .ok slots := by
+  unfold claimFromHex claimToHex
+  have hb : ∀ b ∈ slots.flatMap (leBytes 32), b < 256 := by
+    intro b hb
+    rw [List.mem_flatMap] at hb
+    obtain ⟨s, _, hs⟩ := hb
+    exact leBytes_lt 32 s b hs
+  rw [decode_encode _ hb]
+  simp only
+  rw [if_neg (by rw [flatMap_length32, h8]; decide)]
+  have hc : chunks32 8 (slots.flatMap (leBytes 32)) = slots.map (leBytes 32) := by
+    rw [← h8]; exact chunks32_flatMap slots
+  have hm : (slots.map (leBytes 32)).map leNat = slots := by
+    rw [List.map_map]
+    conv => rhs; rw [← List.map_id slots]
+    apply List.map_congr_left
+    intro s hs
+    have : (256 : Nat) ^ 32 = 2 ^ 256 := by decide
+    exact leNat_leBytes 32 s (by rw [this]; exact Nat.lt_of_lt_of_le (hq s hs) hq256)
+  rw [hc, hm]
+  have : slots.all (· < q) = true := by simpa using hq
+  simp [this]
+
+/-- reading does not depend on the case of the digits -/
+theorem claim_hex_case_irrelevant (q : Nat) (s : List Nat) :
+    claimFromHex q (s.map upperChar) = claimFromHex q s ∧ claimFromHex q (s.map lowerChar) = claimFromHex q s := by
+  unfold claimFromHex
+  rw [decode_upper, decode_lower]
+  exact ⟨rfl, rfl⟩
+
+/-- what is read is a claim: eight slots, each a field element -/
+theorem claim_hex_decoded_wf (q : Nat) (s slots : List Nat) (h : claimFromHex q s = .ok slots) :
+    slots.length = 8 ∧ ∀ x ∈ slots, x < q := by
+  unfold claimFromHex at h
+  split at h
+  · simp at h
+  · rename_i bs hd
+    split at h
+    · simp at h
+    · simp only at h
+      split at h
+      · rename_i hall
+        simp at h; subst h
+        refine ⟨by simp [chunks32_length], ?_⟩
+        simpa using hall
+      · simp at h
+
+/-- **the accepted spellings of a claim differ only in the case of their digits**: whatever string is read as a claim,
+    the claim's own spelling is that string in lower case -/
+theorem claim_hex_spellings (q : Nat) (s slots : List Nat) (h : claimFromHex q s = .ok slots) :
+    claimToHex slots = s.map lowerChar := by
+  unfold claimFromHex at h
+  split at h
+  · simp at h
+  · rename_i bs hd
+    obtain ⟨_, hlt, henc⟩ := decode_spec s bs hd
+    split at h
+    · simp at h
+    · rename_i hlen
+      simp only at h
+      split at h
+      · simp at h; subst h
+        unfold claimToHex
+        rw [chunks32_rebuild 8 bs (by simp at hlen; omega) hlt, henc]
+      · simp at h
+
+/-- non-vacuity: "0AfF" is read as the bytes 10, 255 and written back as "0aff"; the hypotheses of the round trip are met by a concrete claim -/
+example : decode [48, 65, 102, 70] = some [10, 255] ∧ encode [10, 255] = [48, 97, 102, 102] := by decide
+example : ([1, 2, 3, 4, 5, 6, 7, 99] : List Nat).length = 8 ∧ ∀ s ∈ ([1, 2, 3, 4, 5, 6, 7, 99] : List Nat), s < 100 := by decide
+end ClaimHex
 
 end Gsp.Props.C14
